@@ -20,6 +20,7 @@ type replayCase struct {
 	Pkg     string            `json:"pkg"`
 	Harness string            `json:"harness"`
 	Inputs  map[string]uint64 `json:"inputs"`
+	Repeat  int               `json:"repeat,omitempty"`
 
 	expectViolation *Violation
 	expectEvents    []string
@@ -268,7 +269,7 @@ func writeReplayFile(path, tier, pkg string, v Violation) {
 	doc := map[string]interface{}{
 		"tier": tier,
 		"cases": []map[string]interface{}{{
-			"id": 0, "pkg": pkg, "harness": v.Harness, "inputs": v.Inputs,
+			"id": 0, "pkg": pkg, "harness": v.Harness, "inputs": v.Inputs, "repeat": 200,
 		}},
 		"violation": v,
 		"rendered":  renderInputs(v.Inputs),
